@@ -43,7 +43,7 @@ RUN = "0"
 # ---------------------------------------------------------------------------- mailbox level
 def sym_kill(nsubs, cap, lazy, drivers, upstream):
     """kill from any invariant state: flags set, all three conditions notified, every waiter predicate true."""
-    sim = Sim(nsubs, lazy, cap, drivers=drivers, lmax=(3 if lazy else cap))
+    sim = Sim(nsubs, lazy, cap, drivers=drivers, lmax=(4 if lazy else cap))
     mb = sim.mb
     pre = sim.havoc(closed=None)
     sim.reset_notes()
@@ -65,7 +65,7 @@ def sym_send_killed(nsubs, cap, lazy, mode):
     """send on a (force-)killed mailbox; kill racing with a sender blocked on a full queue."""
     import strax
 
-    sim = Sim(nsubs, lazy, cap, lmax=(3 if lazy else cap))
+    sim = Sim(nsubs, lazy, cap, lmax=(4 if lazy else cap))
     mb = sim.mb
     if mode == "race":
         if lazy:
@@ -100,7 +100,7 @@ def sym_read_killed(nsubs, j, cap, lazy, mode):
     """_read entered on a killed mailbox, or woken by a kill: raises MailboxKilled (never blocks, never yields)."""
     import strax
 
-    sim = Sim(nsubs, lazy, cap, lmax=(3 if lazy else cap))
+    sim = Sim(nsubs, lazy, cap, lmax=(4 if lazy else cap))
     mb = sim.mb
     gen = mb._read(subscriber_i=j)
     state = {"i": 0}
@@ -313,7 +313,7 @@ def _setup():
 
 def _g_mb(tier):
     subs = [1, 2] if tier == "quick" else [1, 2, 3]
-    caps = [1, 2, 3] if tier == "quick" else [1, 2, 3, 4]
+    caps = [1, 2, 4] if tier == "quick" else [1, 2, 3, 4, 5]
     g = []
     for s in subs:
         for c in caps:
